@@ -1,8 +1,10 @@
 // ===== prelude/ring.rs — TRUSTED BASE: base64 / hex / ring::aead / serde_json as opaque total functions =====
 pub struct DecodeError { pub c: u8 }
 pub mod base64 { pub use crate::base64_decode as decode; }
+pub uninterp spec fn spec_b64_bytes(s: String) -> Option<Seq<u8>>;
 #[verifier::external_body]
-pub fn base64_decode(s: &String) -> (r: Result<Vec<u8>, DecodeError>) { unimplemented!() }
+pub fn base64_decode(s: &String) -> (r: Result<Vec<u8>, DecodeError>)
+    ensures r matches Ok(v) ==> spec_b64_bytes(*s) == Some(v@), spec_b64_bytes(*s) is Some ==> r is Ok { unimplemented!() }
 // hex text <-> bytes (A-hex: to_hex / from_hex are mutually inverse on what to_hex produces)
 pub uninterp spec fn spec_hex_bytes(s: String) -> Option<Seq<u8>>;
 #[verifier::external_body]
